@@ -157,8 +157,48 @@ def check_copy(g, cpath, acc, light=False):
                 bad("copy_not_equal", {"path": d2[0], "field": d2[1], "value": d2[2]}, d2[3], field=d2[1])
     except Exception as e:  # noqa
         bad("copy_raised", "a second copy", repr(e))
+    # queries on one side must answer with that side's own nodes (first on the original, then on the copy, and the reverse)
+    for first, second in ((N, C), (C, N)):
+        for a_, b_ in zip(gtree.preorder(first), gtree.preorder(second)):
+            for nm_ in {c_.name for c_ in a_.children}:
+                try:
+                    a_.find_child(nm_)
+                    got_ = b_.find_child(nm_)
+                    if got_ is not None and not any(got_ is c_ for c_ in b_.children):
+                        bad("copy_shares_node", "find_child answers with a child of the node asked", "a node of the other tree", via="find_child")
+                        break
+                    a_.find_all_children(nm_)
+                    if any(not any(x_ is c_ for c_ in b_.children) for x_ in b_.find_all_children(nm_)):
+                        bad("copy_shares_node", "find_all_children answers with children of the node asked", "nodes of the other tree", via="find_all_children")
+                        break
+                except Exception as e:  # noqa
+                    bad("copy_raised", "queries work on both sides", repr(e))
+                    break
     if light:
         return n_checks
+    # the copy attached next to its source (under the same parent): a prefix re-bound on one of the two stays there
+    if cpath:
+        for side in ("copy", "original"):
+            core.reset_store()
+            T1 = build(g)
+            N1 = node_at(T1, cpath)
+            P1 = node_at(T1, cpath[:-1])
+            C1 = N1.copy()
+            P1.add_child(C1)
+            target, other = (C1, N1) if side == "copy" else (N1, C1)
+            snap_other = gtree.snap(other)
+            snap_parent = tuple(P1.nsmap.items())
+            try:
+                for pf_ in list(target.nsmap)[:2] or ["p"]:
+                    target.add_namespace(pf_, "urn:rebound")
+            except Exception as e:  # noqa
+                bad("edit_raised", "edit succeeds", repr(e), edit="add_namespace_rebind", side=side, at=list(cpath))
+                continue
+            n_checks += 1
+            if gtree.snap(other) != snap_other or tuple(P1.nsmap.items()) != snap_parent:
+                dd = gtree.snap_diff(snap_other, gtree.snap(other)) or ([], "nsmap (parent)", snap_parent, tuple(P1.nsmap.items()))
+                bad("edit_leaks", {"other side and parent unchanged": dd[0], "field": dd[1], "value": dd[2]}, dd[3],
+                    edit="add_namespace_rebind(attached copy)", side=side, at=list(cpath), field=dd[1])
     # independence: one edit at a time on either side
     copy_paths = [p for p, _ in gtree.walk(gtree.at(g, cpath))]
     tree_paths = [p for p, _ in gtree.walk(g)]
